@@ -170,6 +170,7 @@ def run(ctx):
                             'batches are sliced at the wrong position')
 
     class_level_order(ctx, prog)
+    heap_orientation(ctx, prog)
     R5 = 'C12-R5'
     ctx.rule(R5, 'an absent LIMIT is not a size: the builder hands TopN / Limit a huge sentinel when the query has no LIMIT, so no '
                  'allocation in those executors may be sized by `limit` (with_capacity*, reserve, vec![_; n]) unless the amount went '
@@ -253,6 +254,43 @@ def class_level_order(ctx, prog):
                    f'orderby is merged with {c.fn}', [site(mb, c.bb)],
                    what='the e-class keeps the MAXIMUM of its members\' order keys: one ordered member (a sort aggregation) lets useless-order '
                         'drop the ORDER BY above the class, and a cost tie extracts the unordered hash aggregation')
+
+
+def heap_orientation(ctx, prog):
+    """C12-R7: the min-heap of MergeIterator asks one question"""
+    R7 = 'C12-R7'
+    ctx.rule(R7, 'MergeIterator keeps the smallest pending row on top of a hand-written binary heap; sift-up, the choice of the smaller '
+                 'child and the push-down test all ask the same question of compare_in_heap - "is the first greater than the second?" - '
+                 'i.e. they split Ordering into {Greater} and {Less, Equal} (matches!(.., Greater), is_gt, is_le). A test that splits it '
+                 'as {Less} / {Equal, Greater} answers a different question and turns one of the three steps around')
+    n = 0
+    for b in prog.bodies.values():
+        if 'merge_iterator::MergeIterator::' not in b.name:
+            continue
+        for c in b.calls:
+            if not (c.fn or '').endswith('MergeIterator::compare_in_heap'):
+                continue
+            n += 1
+            ctx.functions_analysed.add(b.name)
+            d = c.dest['l']
+            verdict = None
+            for k in b.calls:
+                if any(a['k'] != 'const' and d in origin_locals(b, a['pl']['l'], depth=3) for a in k.args):
+                    m = re.search(r'cmp::Ordering::(is_gt|is_le|is_lt|is_ge|is_eq|is_ne)$', k.fn or '')
+                    if m:
+                        verdict = m.group(1)
+            for i, bl in enumerate(b.blocks):
+                t = bl['term']
+                if t['k'] == 'switch' and t.get('adt') == 'std::cmp::Ordering' and t.get('on') and d in origin_locals(b, t['on']['l'], depth=3):
+                    names = t.get('variants', {})
+                    listed = frozenset(names.get(str(v), str(v)) for v, tgt in t['targets'] if tgt != t.get('otherwise'))
+                    verdict = 'Greater' if listed in (frozenset({'Greater'}), frozenset({'Less', 'Equal'})) else '/'.join(sorted(listed))
+            ok = verdict in ('Greater', 'is_gt', 'is_le')
+            ctx.ob(R7, f'{b.root.rsplit("::", 1)[-1]}·bb{"" if ok else "-other-question"}·{verdict}', ok,
+                   f'{b.name}: the result of compare_in_heap at block {c.bb} is tested as `{verdict}`', [site(b, c.bb)],
+                   what=f'{b.root.rsplit("::", 1)[-1]} tests a heap comparison as `{verdict}` where every other step asks "greater?": the heap '
+                        'follows the wrong child and rows of three or more row-sets come out of order')
+    ctx.floor(R7, n, 3, 'compare_in_heap call sites')
 
 
 PASS_THROUGH = ('Proj', 'Filter', 'Window', 'Limit', 'MergeJoin', 'SortAgg', 'Order', 'TopN')
